@@ -3,22 +3,52 @@ package main
 import (
 	"fmt"
 	"os"
+	"sort"
+
+	"github.com/diskfs/go-diskfs/filesystem/iso9660"
 
 	"verif/harness/internal/fsx"
+	"verif/harness/internal/memdev"
+	"verif/harness/internal/rawiso"
 )
 
 func main() {
-	os.Setenv("SOURCE_DATE_EPOCH", os.Args[1])
-	for _, k := range []string{"fat12"} {
-		sz := map[string]int64{"fat12": 8192, "fat16": 5 << 20, "fat32": 51200}[k]
-		v, _ := fsx.CreateMutable(k, fsx.Opt{Size: sz, Repro: true, Label: "VERIF"})
-		b := v.Dev.Bytes(0, sz)
-		fmt.Printf("%s:", k)
-		for i := 0; i < len(b); i++ {
-			if b[i] != 0 {
-				fmt.Printf(" %x=%02x", i, b[i])
-			}
+	rr := os.Args[1] == "rr"
+	deep := os.Args[2] == "deep"
+	n := 9
+	var es []fsx.Entry
+	p := ""
+	for i := 1; i <= n; i++ {
+		if p == "" {
+			p = fmt.Sprintf("Some Directory %d", i)
+		} else {
+			p += fmt.Sprintf("/Some Directory %d", i)
 		}
-		fmt.Println()
+		es = append(es, fsx.Entry{Path: p, Dir: true})
+	}
+	es = append(es, fsx.Entry{Path: p + "/leaf file.txt", Data: []byte("leaf")}, fsx.Entry{Path: "Some Directory 1/x.tar.gz", Data: []byte("xx")}, fsx.Entry{Path: "Some Directory 2", Dir: true}, fsx.Entry{Path: "Some Directory 2/y.y", Data: []byte("y")})
+	d := memdev.New(64 << 20)
+	v, err := fsx.BuildImageOn("iso", d, es, fsx.Opt{Size: 64 << 20, Sector: 2048, IsoOpts: &iso9660.FinalizeOptions{RockRidge: rr, DeepDirectories: deep}})
+	fmt.Println("build err:", err)
+	if err != nil {
+		return
+	}
+	w, err := fsx.Walk(v.FS, 1<<20)
+	fmt.Println("walk err:", err)
+	var ps []string
+	for p, n := range w {
+		ps = append(ps, p+" ["+n.Kind+"]")
+	}
+	sort.Strings(ps)
+	for _, p := range ps {
+		fmt.Println("  LIB", p)
+	}
+	iso, err := rawiso.ParseISO(d, 0, 64<<20, 2048)
+	fmt.Println("raw err:", err)
+	if iso != nil {
+		for _, e := range iso.Entries {
+			fmt.Printf("  RAW %s dir=%v lba=%d size=%d flags=%x\n", e.Path, e.IsDir, e.LBA, e.Size, e.Flags)
+		}
+		fmt.Println("  problems:", iso.Problems)
 	}
 }
